@@ -21,9 +21,36 @@ Definition opt_nat_eqb (a b : option nat) : bool :=
   | _, _ => false
   end.
 
+(** Error envelopes are compared by kind only: the generic "Internal server error" or a message meant for the
+    client.  The properties fix neither thunder's wording nor which of two simultaneous refusals (duplicate
+    id, limit) is named. *)
+Definition is_internal (j : json) : bool :=
+  match j with JStr m => String.eqb m internal_error | _ => false end.
+
+(** In a delta a replaced scalar may be sent bare or wrapped ([[x]]); both merges read them alike.  diff.go
+    wraps byte slices (not a scalar for its type switch), which this JSON-level model sees as strings: deltas
+    are compared after unwrapping one-element arrays of scalars, on both sides. *)
+Fixpoint unwrap1 (j : json) : json :=
+  match j with
+  | JArr l =>
+      match map unwrap1 l with
+      | [x] => if is_scalar x then x else JArr [x]
+      | l' => JArr l'
+      end
+  | JObj l => JObj ((fix go (l : list (string * json)) :=
+                       match l with [] => [] | (k, v) :: t => (k, unwrap1 v) :: go t end) l)
+  | _ => j
+  end.
+
+Definition msg_matches (t : etype) (m : json) (o : json) : bool :=
+  match t with
+  | EError => Bool.eqb (is_internal m) (is_internal o)
+  | _ => json_eqb (unwrap1 (norm m)) (unwrap1 o)
+  end.
+
 Definition env_matches (e : envelope) (o : obs_env) : bool :=
   Nat.eqb (e_id e) (o_id o) && Nat.eqb (etype_code (e_type e)) (o_type o)
-  && json_eqb (norm (e_msg e)) (o_msg o) && opt_nat_eqb (e_src e) (o_src o).
+  && msg_matches (e_type e) (e_msg e) (o_msg o) && opt_nat_eqb (e_src e) (o_src o).
 
 Fixpoint all2 {A B} (f : A -> B -> bool) (l1 : list A) (l2 : list B) : bool :=
   match l1, l2 with
